@@ -181,7 +181,7 @@ Proof.
     destruct (nth_error (o_items c) (o_taken c)) as [r|].
     + destruct (r_kind r); repeat strip.
     + destruct (o_chan c); cbn [negb]; [|repeat strip].
-      destruct (o_deadline c) as [d|]; [|apply sext_refl]. destruct (d <=? now s); [|apply sext_refl].
+      destruct (o_tmo c) as [d|]; [|repeat strip]. match goal with |- context [if ?b then _ else _] => destruct b end; [|repeat strip].
       destruct (is_running s); repeat strip.
   - (* StreamFinish *) destruct (getop s o) as [c|] eqn:Ec; [|apply sext_refl].
     destruct (o_status c); try apply sext_refl; destruct (is_running s); repeat strip.
@@ -249,8 +249,8 @@ Proof.
   1, 2: destruct (getop s o) as [c|]; [|now left]; destruct (o_status c); try (now left);
         destruct (o_rx c); cbn [negb]; [|now left]; destruct (nth_error (o_items c) (o_taken c)) as [r|];
         [ destruct (r_kind r); now left
-        | destruct (o_chan c); cbn [negb]; [|now left]; destruct (o_deadline c) as [d|]; [|now left];
-          destruct (d <=? now s); [destruct (is_running s)|]; now left ].
+        | destruct (o_chan c); cbn [negb]; [|now left]; destruct (o_tmo c) as [d|]; [|now left];
+          match goal with |- context [if ?b then _ else _] => destruct b end; [destruct (is_running s)|]; now left ].
   (* StreamFinish *)
   1, 2: destruct (getop s o) as [c|]; [|now left]; destruct (o_status c); try (now left); destruct (is_running s); now left.
   (* Advance *)
